@@ -548,7 +548,8 @@ def guard_facts(fn, ctx, kill_on_mutation=True, effects=None):
                             fieldkill.setdefault(j, set()).add("*")
                     elif on["k"] == "member" and fn.nodes[on["base"]]["k"] == "this":
                         short = strip_targs(n.get("cname") or "").split("::")[-1]
-                        if not ((n.get("cname") or "").startswith("std::") and short in STD_ACCESSORS):
+                        if not (((n.get("cname") or "").startswith("std::") and short in STD_ACCESSORS) or
+                                ((n.get("cname") or "").startswith("Eigen::") and short in EIGEN_ACCESSORS)):
                             fieldkill.setdefault(j, set()).add(strip_targs(on["q"]))
 
     def transfer(st, b, i, e):
